@@ -16,6 +16,26 @@ package state
 //@   modifies nothing
 //@   ensures [unfiltered] !snHidesTaints(in) ==> result == snRawTaints(in)
 
+// ---- (2) Allocatable: what an in-flight node counts with ----
+// Until a managed node is initialized the NodeClaim's status (the allocatable of the instance type it was
+// launched as) stands in: alone while no Node exists, and per resource name wherever the Node reports
+// zero / nothing once the Node has appeared.
+//@ pure snUsesClaimStatus(n *StateNode) bool = n.NodeClaim != nil && !snInitialized(n)
+//@ pure snNodeAlloc(n *StateNode) = n.Node.Status.Allocatable
+//@ pure snClaimAlloc(n *StateNode) = n.NodeClaim.Status.Allocatable
+
+//@ func (*StateNode).Allocatable
+//@   prop C04
+//@   modifies nothing
+//@   ensures [initialized] !snUsesClaimStatus(in) ==> result == snNodeAlloc(in)
+//@   ensures [claimOnly] (snUsesClaimStatus(in) && in.Node == nil) ==> result == snClaimAlloc(in)
+//@   ensures [mergedFresh] (snUsesClaimStatus(in) && in.Node != nil) ==> (fresh(result) && result != nil)
+//@   ensures [mergedKeys] (snUsesClaimStatus(in) && in.Node != nil) ==> (forall k corev1.ResourceName {k in result} :: (k in result) <==> ((k in snNodeAlloc(in)) || (k in snClaimAlloc(in))))
+//@   ensures [mergedVals] (snUsesClaimStatus(in) && in.Node != nil) ==> (forall k corev1.ResourceName {result[k]} :: result[k] == (((k in snClaimAlloc(in)) && snNodeAlloc(in)[k] == 0) ? snClaimAlloc(in)[k] : snNodeAlloc(in)[k]))
+//@   loop 1 invariant ret == loopentry(ret) && fresh(ret) && ret != nil
+//@   loop 1 invariant [keys] forall k corev1.ResourceName {k in ret} :: (k in ret) <==> ((k in snNodeAlloc(in)) || seen(k))
+//@   loop 1 invariant [vals] forall k corev1.ResourceName {ret[k]} :: ret[k] == ((seen(k) && snNodeAlloc(in)[k] == 0) ? snClaimAlloc(in)[k] : snNodeAlloc(in)[k])
+
 // ---- (4) Synced: no scheduling pass while a NodeClaim Karpenter created has not been launched ----
 // A NodeClaim is tracked by name from the moment it is created; its provider ID is empty until it is launched.
 // Synced answers true only if every tracked NodeClaim has a provider ID (both on the fast path after the first
